@@ -678,6 +678,18 @@ Definition host_right_pipe (line : str) : bool :=
         | KNone => false
         end.
 
+(* finding class: the parser strips "www." from the raw text and lower-cases afterwards, so
+   ||WWW.host keeps its www. label while ||www.host loses it *)
+Definition www_strip_case (line : str) : bool :=
+  let '(_, lk, rp, pattern) := split_line line in
+  match lk with
+  | KDouble =>
+      let cut := match find_first_sep pattern with Some i => i | None => length pattern end in
+      let h := take cut pattern in
+      negb (str_eqb (lower_str (trim_www (length h) h)) (trim_www (length h) (lower_str h)))
+  | _ => false
+  end.
+
 (* --- boolean comparison helpers for the correspondence cases *)
 Definition onat_eqb := opt_eqb Nat.eqb.
 Definition ostr_eqb := opt_eqb str_eqb.
@@ -715,13 +727,13 @@ Definition fields_agree (line : str) (mask : N) (filter hostname : option str) :
   && (if pf_ws pf then has mask M_FROM_WEBSOCKET else true).
 Definition text_tie (line : str) (mask : N) (filter hostname : option str) : bool :=
   let sh := shape_of_mask mask in
-  implb (nondegenerate_text line && negb (host_right_pipe line))
+  implb (nondegenerate_text line && negb (host_right_pipe line) && negb (www_strip_case line))
         (wf_fields sh filter hostname && nondegenerate_fields sh filter hostname
          && past_eqb (ast_of_fields sh filter hostname) (ast_of_text line)).
 (* the L0 reading of the text against the implementation's answer [impl], outside the carve-outs *)
 Definition text_ref_agrees (line : str) (mask : N) (filter hostname : option str)
            (r : request) (hs : nat) (impl : bool) : bool :=
-  implb (nondegenerate_text line && negb (host_right_pipe line) && wf_requestb r hs
+  implb (nondegenerate_text line && negb (host_right_pipe line) && negb (www_strip_case line) && wf_requestb r hs
          && negb (suffix_mid_label_case (shape_of_mask mask) filter hostname r))
         (Bool.eqb (ref_matchb (ast_of_text line) (lower_str (r_url r)) (r_host r) hs) impl).
 Definition len_in (s : str) (lens : list N) : bool := memN (N.of_nat (length s)) lens.
